@@ -739,59 +739,78 @@ class SegmentWriter(IndexWriter):
                              if not name.startswith("_")])
         self._check_fields(schema, fieldnames)
 
+        # First do everything that can reject the document (analysis, value
+        # conversion) without touching the posting pool or the per-document
+        # writer, so that a document that raises leaves nothing behind for the
+        # next document added with the same writer
+        prepared = []
+        for fieldname in fieldnames:
+            value = fields.get(fieldname)
+            if value is None:
+                continue
+            field = schema[fieldname]
+
+            length = 0
+            posts = []
+            if field.indexed:
+                # TODO: Method for adding progressive field values, ie
+                # setting start_pos/start_char?
+                fieldboost = self._field_boost(fields, fieldname, docboost)
+                # Ask the field to return a list of (text, weight, vbytes)
+                # tuples
+                items = field.index(value)
+                # Only store the length if the field is marked scorable
+                scorable = field.scorable
+                # Collect the terms for the pool
+                for tbytes, freq, weight, vbytes in items:
+                    weight *= fieldboost
+                    if scorable:
+                        length += freq
+                    posts.append((fieldname, tbytes, docnum, weight, vbytes))
+
+            if field.separate_spelling():
+                spellfield = field.spelling_fieldname(fieldname)
+                for word in field.spellable_words(value):
+                    word = utf8encode(word)[0]
+                    # item = (fieldname, tbytes, docnum, weight, vbytes)
+                    posts.append((spellfield, word, 0, 1, vbytes))
+
+            vitems = None
+            vformat = field.vector
+            if vformat:
+                analyzer = field.analyzer
+                # Call the format's word_values method to get posting values
+                vitems = vformat.word_values(value, analyzer, mode="index")
+                # Remove unused frequency field from the tuple
+                vitems = sorted((text, weight, vbytes)
+                                for text, _, weight, vbytes in vitems)
+
+            # Allow a custom value for stored field/column
+            customval = fields.get("_stored_%s" % fieldname, value)
+            sv = customval if field.stored else None
+
+            column = field.column_type
+            has_cv = bool(column) and customval is not None
+            cv = field.to_column_value(customval) if has_cv else None
+            prepared.append((fieldname, field, posts, vitems, sv, length,
+                             column, has_cv, cv))
+
         perdocwriter.start_doc(docnum)
         try:
-            for fieldname in fieldnames:
-                value = fields.get(fieldname)
-                if value is None:
-                    continue
-                field = schema[fieldname]
+            for (fieldname, field, posts, vitems, sv, length, column, has_cv,
+                 cv) in prepared:
+                # Add the terms to the pool
+                for post in posts:
+                    add_post(post)
 
-                length = 0
-                if field.indexed:
-                    # TODO: Method for adding progressive field values, ie
-                    # setting start_pos/start_char?
-                    fieldboost = self._field_boost(fields, fieldname, docboost)
-                    # Ask the field to return a list of (text, weight, vbytes)
-                    # tuples
-                    items = field.index(value)
-                    # Only store the length if the field is marked scorable
-                    scorable = field.scorable
-                    # Add the terms to the pool
-                    for tbytes, freq, weight, vbytes in items:
-                        weight *= fieldboost
-                        if scorable:
-                            length += freq
-                        add_post((fieldname, tbytes, docnum, weight, vbytes))
-
-                if field.separate_spelling():
-                    spellfield = field.spelling_fieldname(fieldname)
-                    for word in field.spellable_words(value):
-                        word = utf8encode(word)[0]
-                        # item = (fieldname, tbytes, docnum, weight, vbytes)
-                        add_post((spellfield, word, 0, 1, vbytes))
-
-                vformat = field.vector
-                if vformat:
-                    analyzer = field.analyzer
-                    # Call the format's word_values method to get posting values
-                    vitems = vformat.word_values(value, analyzer, mode="index")
-                    # Remove unused frequency field from the tuple
-                    vitems = sorted((text, weight, vbytes)
-                                    for text, _, weight, vbytes in vitems)
+                if vitems is not None:
                     perdocwriter.add_vector_items(fieldname, field, vitems)
-
-                # Allow a custom value for stored field/column
-                customval = fields.get("_stored_%s" % fieldname, value)
 
                 # Add the stored value and length for this field to the per-
                 # document writer
-                sv = customval if field.stored else None
                 perdocwriter.add_field(fieldname, field, sv, length)
 
-                column = field.column_type
-                if column and customval is not None:
-                    cv = field.to_column_value(customval)
+                if has_cv:
                     perdocwriter.add_column_value(fieldname, column, cv)
         except Exception as ex:
             perdocwriter.cancel_doc()
